@@ -35,7 +35,7 @@ ALPHABET = {
     "grid sizes": "n_x, n_y in {2..6}^2 (quick) / {2..9}^2 (thorough)",
     "voxel width, height": "dx, dy in {0.1, 0.25, 1}^2 (ops: all 9; admt quick: (0.1,0.1), (0.25,0.1), (1,0.25); admt thorough: all 9 for n <= 6, those three and (0.1,1) for n in 7..9)",
     "origins (lower-left corner)": "(0,0), (1.5,-2) [+ (0.3,0.7) for the operators in thorough]",
-    "1-D orderings / index maps": "column-major (documented), row-major, column boustrophedon; vertex order rotated; maps built by the reference",
+    "1-D orderings / index maps": "column-major (documented), row-major, column boustrophedon; vertex order rotated; maps built by the reference, their entries inserted in key order or in another order",
     "fields": "1, 3.7 | x, y, 3-2x+y/2 | xy, 1+x-2y+1.5xy | x^2, y^2, 3-2x+y/2+1.5xy-x^2+y^2/4",
     "flux maps": "all a x + b y + c x^2 + d xy + e y^2 with coefficients in {-1,0,1,2} up to a non-zero factor (871 classes; linear "
                  "ones included), Solov'ev-like quartics kappa x^2 (y-y0)^2 + (x^2-r0^2)^2/4 (2 quick / 6 thorough) and 4 more "
